@@ -294,7 +294,7 @@ def handle (st : St) (seq : String) (f : List String) : St × List String :=
   | ["lr.track", tb, x, paid, ta] =>
     match ints [tb, x, paid, ta] with
     | some [tb, x, paid, ta] =>
-      let (mp, mt) := trackerStep tb x
+      let (mp, mt) := Comdex.Accrual.trackerStep tb x
       let d := if mp = paid && mt = ta then [] else [s!"DIFF\t{seq}\tlend tracker: model={mp} {mt}\timpl={paid} {ta}"]
       let cont := match st.lastTr with
         | some a => if a = tb then [] else [s!"DIFF\t{seq}\tlend tracker not continuous: {a} vs {tb}"]
